@@ -28,6 +28,8 @@ enum Container {
 #[derive(Clone, Copy, Debug, PartialEq, Eq)]
 enum SplitOp {
     SplitOff(usize, usize),
+    /// split_off with the range written with other bound kinds (elem::bounds form 1..=4)
+    SplitOffB(usize, usize, usize),
     SplitAt(usize),
     SplitFirst,
     SplitLast,
@@ -155,7 +157,7 @@ where
     let mut ordered = true;
     let mut model_panics = false;
     match c.op {
-        SplitOp::SplitOff(s, e) => {
+        SplitOp::SplitOff(s, e) | SplitOp::SplitOffB(_, s, e) => {
             if s > e || e > n {
                 model_panics = true;
             } else {
@@ -209,6 +211,18 @@ where
             }
             (Part::Vec(mut v), SplitOp::SplitOff(s, e)) => {
                 let o = v.split_off(s..e);
+                vec![Part::Vec(v), Part::Vec(o)]
+            }
+            (Part::Boxed(mut b), SplitOp::SplitOffB(f, s, e)) => {
+                let o = b.split_off(crate::elem::bounds(f, s, e, n));
+                vec![Part::Boxed(b), Part::Boxed(o)]
+            }
+            (Part::Fixed(mut v), SplitOp::SplitOffB(f, s, e)) => {
+                let o = v.split_off(crate::elem::bounds(f, s, e, n));
+                vec![Part::Fixed(v), Part::Fixed(o)]
+            }
+            (Part::Vec(mut v), SplitOp::SplitOffB(f, s, e)) => {
+                let o = v.split_off(crate::elem::bounds(f, s, e, n));
                 vec![Part::Vec(v), Part::Vec(o)]
             }
             (Part::Boxed(b), SplitOp::SplitAt(at)) => {
@@ -339,7 +353,7 @@ where
             *e = p.vals();
         }
     }
-    if !T::IS_ZST && matches!(c.op, SplitOp::SplitOff(..)) {
+    if !T::IS_ZST && matches!(c.op, SplitOp::SplitOff(..) | SplitOp::SplitOffB(..)) {
         if let (Some(a), Some(b)) = (parts[0].capacity(), parts[1].capacity()) {
             if a + b != cap0 {
                 return Err(format!("{:?}: capacities {a} + {b} do not add up to the original capacity {cap0}", c.op));
@@ -564,6 +578,11 @@ pub fn explore(thorough: bool, deadline: Instant) -> (J, Vec<J>) {
                                     continue;
                                 }
                                 ops.push(SplitOp::SplitOff(s, e));
+                                for form in 1..=4usize {
+                                    if crate::elem::bounds_form_applies(form, s, e, n) {
+                                        ops.push(SplitOp::SplitOffB(form, s, e));
+                                    }
+                                }
                             }
                         }
                         if cont == Container::Boxed {
@@ -1046,6 +1065,7 @@ fn parse_split_op(s: &str) -> Option<SplitOp> {
     let n = nums(s);
     Some(match s.split('(').next()? {
         "SplitOff" => SplitOp::SplitOff(n[0], n[1]),
+        "SplitOffB" => SplitOp::SplitOffB(n[0], n[1], n[2]),
         "SplitAt" => SplitOp::SplitAt(n[0]),
         "SplitFirst" => SplitOp::SplitFirst,
         "SplitLast" => SplitOp::SplitLast,
